@@ -19,6 +19,8 @@
 (*   merge / qmerge(d, o, raw)       Dictionary / QuotedTripleStore::merge *)
 (*   lost(db)                        a term encoded earlier in the run was *)
 (*                                   not found in the maps                 *)
+(*   exhausted(op)                   an encode refused because its         *)
+(*                                   identifier range is used up (allowed) *)
 (* D[k] is the abstract state of database k: the relations enc and qenc    *)
 (* accumulate every (key, identifier) pair ever returned (the ghost        *)
 (* `handed` of Dict.tla: they never shrink, so every later event and every *)
@@ -182,6 +184,7 @@ Step ==
                             ELSE IF ~MergeOK(x.qenc, o.qenc, ToSet(e.raw.qc2i)) THEN "merged-store-is-not-the-union" ELSE "",
                             e.d, [x EXCEPT !.qenc = @ \cup o.qenc])
          [] e.ev = "lost" -> Fail("handed-out-term-not-found")
+         [] e.ev = "exhausted" -> Keep      \* refusal at the end of an identifier range: the run ends here
          [] e.ev = "panic" -> Fail("panic")
          [] OTHER -> Fail("unknown-event")
 
